@@ -1,10 +1,10 @@
 SPECIFICATION MCSpec
 CONSTANTS
-  PcodeNs = {0, 99}
+  PcodeNs = {0}
   Okinds = {0, 1}
   Onodes = {0, 2}
-  BlobIds = {"nil", "one"}
-  MaxItems = 2
+  BlobIds = {"one"}
+  MaxItems = 1
   Marker = 9
   NoStamp = {"Onode"}
   Reverse = FALSE
